@@ -102,6 +102,18 @@ def run(ck):
                             ck.check(okw, "C20.R3", inst + ":%s random / sqrt(num_visible)" % nme, isite, "weights are initialised as %r, expected randn/sqrt(num_visible)" % (t,))
                         else:
                             ck.check(t is not None and t.is_zero(), "C20.R3", inst + ":%s zero" % nme, isite, "bias %s is initialised as %r, expected zeros" % (nme, t))
+    # an explicit size is the size, also when it is falsy: num_aux = 0 (a pure state written as a mixed one) must not fall back to the default
+    dmc = prog.cls("DensityMatrix")
+    with ck.guard("C20.R3", "DensityMatrix(num_aux=0)", dmc.find_method("__init__").site()):
+        def th0(it):
+            return it.instantiate(dmc, [], {"num_visible": dimval("nv"), "num_hidden": dimval("nh"), "num_aux": VConst(0), "gpu": VConst(False)}, None)
+
+        for p in returning(paths_of(prog, th0, sticky=True), "DensityMatrix(num_aux=0)"):
+            m = p.interp.get_attr(p.value, "rbm_am", None)
+            na_ = num_term(p.interp.get_attr(m, "num_aux", None)) if isinstance(m, VObj) else None
+            ck.check(na_ is not None and na_.is_zero(), "C20.R3", "DensityMatrix(num_aux=0):the requested size is used", prog.cls("PurificationRBM").find_method("__init__").site(),
+                     "DensityMatrix(num_aux=0) builds networks with num_aux = %r: an explicit size of 0 is replaced by the default (a truth-value test instead of `is not None`)" % (na_,),
+                     key="C20.R3|explicit zero size replaced")
     for rbm in ("BinaryRBM", "PurificationRBM"):
         with ck.guard("C20.R3", rbm + "/zero_weights"):
             def thz(it):
